@@ -86,6 +86,8 @@ def generate(program, cname, mode='vc', only_case=None):
         cc.params.update(case.get('params', {}))
         cc.requires = list(c.requires) + list(case.get('requires', []))
         cc.ensures = list(c.ensures) + list(case.get('ensures', []))
+        cc.bind = dict(c.bind or {})
+        cc.bind.update(case.get('bind', {}))
         ex = Exec(program, mode)
         ex.case_label = case.get('label', '')
 
